@@ -377,7 +377,6 @@ fn session_case(ch: &mut Choices, ctx: &CaseCtx) -> CaseOut {
             0 => {
                 let p = SESSION_PROGS[ch.below(SESSION_PROGS.len())];
                 log.push(format!("compile {:?}", p));
-                if std::env::var("VERIF_TRACE").is_ok() { eprintln!("TRACE-S {}", log.last().unwrap()); }
                 guard(|| {
                     let _ = xs.compile(p);
                 })
@@ -385,7 +384,6 @@ fn session_case(ch: &mut Choices, ctx: &CaseCtx) -> CaseOut {
             1 => {
                 let n = 1 + ch.below(12);
                 log.push(format!("next x{}", n));
-                if std::env::var("VERIF_TRACE").is_ok() { eprintln!("TRACE-S {}", log.last().unwrap()); }
                 guard(|| {
                     for _ in 0..n {
                         if xs.next().is_err() {
@@ -428,9 +426,6 @@ fn session_case(ch: &mut Choices, ctx: &CaseCtx) -> CaseOut {
                 })
             }
         };
-        if std::env::var("VERIF_TRACE").is_ok() {
-            eprintln!("TRACE {}", log.last().unwrap());
-        }
         let r = r.and_then(|_| {
             let res: Xresult = Ok(());
             after_calls_light(&mut xs, &res)
@@ -469,9 +464,6 @@ pub fn case(ch: &mut Choices, ctx: &CaseCtx) -> CaseOut {
     let mut total_tokens = 0usize;
     let mut last_word = String::new();
     for _ in 0..ncalls {
-        if std::env::var("VERIF_TRACE").is_ok() {
-            eprintln!("TRACE after: {:?}", log.last());
-        }
         let call = ch.weighted(&[8, 4, 3, 3, 2, 1, 1, 2]);
         let r: Result<(), String> = match call {
             0 | 1 => {
@@ -487,9 +479,6 @@ pub fn case(ch: &mut Choices, ctx: &CaseCtx) -> CaseOut {
                     _ => format!("enum E {} nosuchword endenum", toks.join(" ")),
                 };
                 log.push(format!("{} {:?}", if call == 0 { "eval" } else { "compile" }, src));
-                if std::env::var("VERIF_TRACE").is_ok() {
-                    eprintln!("TRACE {}", log.last().unwrap());
-                }
                 let res = guard(|| if call == 0 { xs.eval(&src) } else { xs.compile(&src) });
                 match res {
                     Ok(r) => after_calls_light(&mut xs, &r),
